@@ -427,6 +427,10 @@ pub fn check_execution(p: &Prepared, out: &Outcome) -> Quiescent {
     }
     for (t, msg) in &out.panics {
         fs.push(TFinding { property: "C17", monitor: format!("{flav}/panic"), detail: format!("thread {t} panicked: {msg}") });
+        // "no cache operation panics" has no exception for operations that overlap with others
+        let op = events.iter().filter(|e| e.thread == *t).count();
+        let what = d.threads.get(*t).and_then(|p| p.get(op)).map(|o| o.render()).unwrap_or_default();
+        fs.push(TFinding { property: "C16", monitor: format!("{flav}/panic-under-concurrency"), detail: format!("thread {t} panicked in `{what}`: {msg}") });
     }
     let clean = out.deadlock.is_none() && out.panics.is_empty();
     let mut obs = String::new();
@@ -435,6 +439,16 @@ pub fn check_execution(p: &Prepared, out: &Outcome) -> Quiescent {
     }
     if !clean {
         return Quiescent { findings: fs, observation: obs };
+    }
+    if d.l0.is_some() {
+        let saved = d.l0.as_ref().map(|c| (seqx::make_subject::<String>(c).save(), vsched::clock_now()));
+        l0_sequential_equivalent(d, &mut fs, flav, pol);
+        if let (Some(c), Some((sv, now))) = (&d.l0, saved) {
+            seqx::make_subject::<String>(c).restore(&sv);
+            if let Some(n) = now {
+                vsched::clock_freeze(n);
+            }
+        }
     }
     let evicting = d.threads.iter().flatten().chain(d.setup.iter().filter_map(|s| if let SOp::Op(o) = s { Some(o) } else { None })).any(|o| !matches!(o, TOp::Call { .. } | TOp::StatsGet { .. } | TOp::StatsList));
     // ---- C18: values inside threads
@@ -451,7 +465,8 @@ pub fn check_execution(p: &Prepared, out: &Outcome) -> Quiescent {
     }
     // ---- C03 (concurrent clause): nothing executes after a storing call has returned
     for f in &p.funcs {
-        let plain = f.limit.is_none() && f.ttl.is_none() && f.mem.is_none() && !f.has_cache_if && !f.has_inval_on && !f.is_result && !evicting;
+        // (for a `Result` function a storing call is one that returned `Ok`)
+        let plain = f.limit.is_none() && f.ttl.is_none() && f.mem.is_none() && !f.has_cache_if && !f.has_inval_on && !evicting;
         if !plain || f.flavour == Flavour::Thread {
             continue;
         }
@@ -462,7 +477,7 @@ pub fn check_execution(p: &Prepared, out: &Outcome) -> Quiescent {
                     continue;
                 }
                 let earlier = setup_keys.contains(k)
-                    || events.iter().any(|o| matches!(&o.op, TOp::Call { f: f2, k: k2 } if f2 == ff && k2 == k) && o.executed && o.end < e.start);
+                    || events.iter().any(|o| matches!(&o.op, TOp::Call { f: f2, k: k2 } if f2 == ff && k2 == k) && o.executed && o.end < e.start && (!f.is_result || o.result.starts_with("Ok(")));
                 if earlier {
                     fs.push(TFinding { property: "C03", monitor: format!("{flav}/recomputed-after-store"), detail: format!("thread {} executed {}({k}) although a call that stored it had already returned", e.thread, f.fn_name) });
                 }
@@ -799,6 +814,196 @@ pub fn check_execution(p: &Prepared, out: &Outcome) -> Quiescent {
     Quiescent { findings: fs, observation: obs }
 }
 
+/// L0 drivers: the state exactly as the threads left it is judged against the sequential orders of the same operations
+fn l0_sequential_equivalent(d: &Driver, fs: &mut Vec<TFinding>, flav: &str, pol: &str) {
+    if let Some(c) = &d.l0 {
+        if let Some(why) = sequential_equivalent(d, c) {
+            let mut props: Vec<&'static str> = vec!["C18"];
+            match c.policy {
+                Pol::Fifo | Pol::Lru => props.push("C07"),
+                Pol::Lfu | Pol::Arc | Pol::Tlru => props.push("C08"),
+                _ => {}
+            }
+            for pr in props {
+                fs.push(TFinding { property: pr, monitor: format!("{flav}/{pol}/behaves-like-no-sequential-history"), detail: why.clone() });
+            }
+        }
+    }
+}
+
+// ---------------------------------------------------------------------------------------------
+// "some sequential history explains it": behaviour after quiescence (engine-level drivers)
+// ---------------------------------------------------------------------------------------------
+
+#[derive(Clone, Copy, Debug, PartialEq)]
+enum FOp {
+    Get(u8),
+    Put(u8),
+    Tick,
+}
+
+/// Every continuation of exactly `depth` steps over `alpha`, each run from the saved state: what every lookup
+/// returns and which keys are stored after every step (the queue is not compared: an implementation may keep
+/// whatever bookkeeping it likes as long as it behaves).
+fn continuations(subj: &dyn seqx::Subject<String>, saved: &seqx::Saved<String>, now: u64, alpha: &[FOp], depth: usize) -> Vec<String> {
+    use crate::vals::Val;
+    let n = alpha.len();
+    let mut idx = vec![0usize; depth];
+    let mut out = Vec::new();
+    loop {
+        subj.restore(saved);
+        vsched::clock_freeze(now);
+        let mut obs = String::new();
+        for i in &idx {
+            match alpha[*i] {
+                FOp::Get(k) => {
+                    let r = std::panic::catch_unwind(std::panic::AssertUnwindSafe(|| subj.get(&format!("k{k}"))));
+                    match r {
+                        Ok(Some(v)) => obs.push_str(&format!("g{k}={v};")),
+                        Ok(None) => obs.push_str(&format!("g{k}=-;")),
+                        Err(_) => {
+                            obs.push_str("PANIC");
+                            break;
+                        }
+                    }
+                }
+                FOp::Put(k) => {
+                    if std::panic::catch_unwind(std::panic::AssertUnwindSafe(|| subj.put(&format!("k{k}"), String::make(k, 7, 8)))).is_err() {
+                        obs.push_str("PANIC");
+                        break;
+                    }
+                    obs.push_str(&format!("p{k};"));
+                }
+                FOp::Tick => {
+                    vsched::clock_advance(NS);
+                    obs.push_str("t;");
+                }
+            }
+            let keys: Vec<String> = subj.snap().store.keys().cloned().collect();
+            obs.push_str(&format!("{}|", keys.join(",")));
+        }
+        out.push(obs);
+        // odometer
+        let mut p = depth;
+        loop {
+            if p == 0 {
+                return out;
+            }
+            p -= 1;
+            idx[p] += 1;
+            if idx[p] < n {
+                break;
+            }
+            idx[p] = 0;
+        }
+    }
+}
+
+fn interleavings(threads: &[Vec<TOp>]) -> Vec<Vec<TOp>> {
+    fn rec(threads: &[Vec<TOp>], pos: &mut Vec<usize>, cur: &mut Vec<TOp>, out: &mut Vec<Vec<TOp>>) {
+        let mut any = false;
+        for t in 0..threads.len() {
+            if pos[t] < threads[t].len() {
+                any = true;
+                cur.push(threads[t][pos[t]].clone());
+                pos[t] += 1;
+                rec(threads, pos, cur, out);
+                pos[t] -= 1;
+                cur.pop();
+            }
+        }
+        if !any {
+            out.push(cur.clone());
+        }
+    }
+    let mut out = Vec::new();
+    rec(threads, &mut vec![0; threads.len()], &mut Vec::new(), &mut out);
+    out
+}
+
+static SEQ_EQ_SEEN: Mutex<BTreeMap<String, Option<String>>> = Mutex::new(BTreeMap::new());
+
+/// The state the threads left behind must behave, under every continuation of `depth` further sequential
+/// operations, like the state some sequential order of the same operations leaves behind — possibly with
+/// entries missing (a cache may always lose an entry; which ones are missing is read off the key sets).
+/// The reference is the implementation itself, run sequentially. Returns a description of the mismatch.
+fn sequential_equivalent(d: &Driver, c: &Config) -> Option<String> {
+    if c.policy == Pol::Random || c.flavour == Flavour::Thread {
+        return None;
+    }
+    let subj = seqx::make_subject::<String>(c);
+    let snap = subj.snap();
+    let now = vsched::clock_now().unwrap_or(START_NS);
+    let phys = format!("{}#{:?}#{:?}#{now}", d.label, snap.store, snap.order);
+    if let Some(v) = SEQ_EQ_SEEN.lock().unwrap().get(&phys) {
+        return v.clone();
+    }
+    let saved = subj.save();
+    // keys the driver touches, plus one fresh key
+    let mut keys: BTreeSet<u8> = BTreeSet::new();
+    for o in d.threads.iter().flatten().chain(d.setup.iter().filter_map(|s| if let SOp::Op(o) = s { Some(o) } else { None })) {
+        match o {
+            TOp::L0Get(k) | TOp::L0Put(k, _) => {
+                keys.insert(*k);
+            }
+            _ => {}
+        }
+    }
+    keys.insert(9);
+    let mut alpha: Vec<FOp> = Vec::new();
+    for k in &keys {
+        alpha.push(FOp::Put(*k));
+    }
+    for k in keys.iter().filter(|k| **k != 9) {
+        alpha.push(FOp::Get(*k));
+    }
+    if c.ttl.is_some() {
+        alpha.push(FOp::Tick);
+    }
+    let depth = if alpha.len() <= 8 { 4 } else { 3 };
+    let conc = continuations(&*subj, &saved, now, &alpha, depth);
+    let conc_keys: BTreeSet<String> = snap.store.keys().cloned().collect();
+    let mut tried = Vec::new();
+    let mut verdict: Option<String> = None;
+    let mut matched = false;
+    for sigma in interleavings(&d.threads) {
+        vsched::clock_freeze(START_NS);
+        subj.reset();
+        for st in &d.setup {
+            match st {
+                SOp::Op(o) => {
+                    perform(o, &d.l0);
+                }
+                SOp::Tick(ns) => vsched::clock_advance(*ns),
+            }
+        }
+        for o in &sigma {
+            perform(o, &d.l0);
+        }
+        let ref_keys: BTreeSet<String> = subj.snap().store.keys().cloned().collect();
+        let order: Vec<String> = sigma.iter().map(|o| o.render()).collect();
+        if !conc_keys.is_subset(&ref_keys) {
+            tried.push(format!("{order:?}: leaves {ref_keys:?}"));
+            continue;
+        }
+        let missing: Vec<String> = ref_keys.difference(&conc_keys).cloned().collect();
+        subj.forget(&missing);
+        let saved_ref = subj.save();
+        let r = continuations(&*subj, &saved_ref, now, &alpha, depth);
+        if r == conc {
+            matched = true;
+            break;
+        }
+        let first = r.iter().zip(conc.iter()).find(|(a, b)| a != b).map(|(a, b)| format!("sequential `{a}` vs after the threads `{b}`")).unwrap_or_default();
+        tried.push(format!("{order:?}{}: {first}", if missing.is_empty() { String::new() } else { format!(" minus {missing:?}") }));
+    }
+    if !matched {
+        verdict = Some(format!("store {:?} queue {:?}; no sequential order of the threads' operations leaves a cache that behaves the same over all {} continuations of {depth} steps: {}", snap.store.keys().collect::<Vec<_>>(), snap.order, conc.len(), tried.join(" || ")));
+    }
+    SEQ_EQ_SEEN.lock().unwrap().insert(phys, verdict.clone());
+    verdict
+}
+
 // ---------------------------------------------------------------------------------------------
 // exploring one driver
 // ---------------------------------------------------------------------------------------------
@@ -998,7 +1203,7 @@ pub fn drivers_for(property: &str, thorough: bool) -> Vec<Driver> {
         out.push(Driver { label, setup, threads, l0, atomic_points: atomic });
     };
     match property {
-        "C17" | "C18" => {
+        "C16" | "C17" | "C18" => {
             for fl in [Flavour::Global, Flavour::Async] {
                 for f in conc(fl) {
                     let all = u32::MAX;
@@ -1107,6 +1312,28 @@ pub fn drivers_for(property: &str, thorough: bool) -> Vec<Driver> {
                 }
             }
         }
+        "C07" | "C08" => {
+            // engine-level races at a full cache; what the threads leave behind must evict, under every continuation
+            // of four further sequential operations, like the cache some sequential order of the same operations leaves
+            let pols: &[Pol] = if property == "C07" { &[Pol::Fifo, Pol::Lru] } else { &[Pol::Lfu, Pol::Arc, Pol::Tlru] };
+            for fl in [Flavour::Global, Flavour::Async] {
+                for pol in pols {
+                    for lim in if thorough { vec![2usize, 3] } else { vec![2usize] } {
+                        let cfg = Config { flavour: fl, policy: *pol, limit: Some(lim), ttl: None, max_memory: None, fw: None, vtype: "String" };
+                        let lbl = |s: &str| format!("L0:{}/{}/limit={lim}:{}", fl.name(), pol.name(), s);
+                        let full: Vec<SOp> = (0..lim as u8).map(|k| SOp::Op(TOp::L0Put(k, 0))).collect();
+                        let fresh = lim as u8;
+                        push(lbl("hit~evicting put"), full.clone(), vec![vec![TOp::L0Get(0)], vec![TOp::L0Put(fresh, 0)]], Some(cfg.clone()), false);
+                        push(lbl("hit~hit"), full.clone(), vec![vec![TOp::L0Get(0)], vec![TOp::L0Get(1)]], Some(cfg.clone()), false);
+                        push(lbl("re-store~evicting put"), full.clone(), vec![vec![TOp::L0Put(0, 1)], vec![TOp::L0Put(fresh, 0)]], Some(cfg.clone()), false);
+                        push(lbl("evicting put~evicting put"), full.clone(), vec![vec![TOp::L0Put(fresh, 0)], vec![TOp::L0Put(fresh + 1, 0)]], Some(cfg.clone()), false);
+                        if thorough || lim == 2 {
+                            push(lbl("hit, hit~evicting put"), full.clone(), vec![vec![TOp::L0Get(0), TOp::L0Get(1)], vec![TOp::L0Put(fresh, 0)]], Some(cfg.clone()), false);
+                        }
+                    }
+                }
+            }
+        }
         "C12" => {
             // group invalidations racing with each other and with calls: counts stay exact, matching caches end up empty
             for fl in [Flavour::Global, Flavour::Async] {
@@ -1178,6 +1405,15 @@ pub fn drivers_for(property: &str, thorough: bool) -> Vec<Driver> {
                         push(format!("{}:3 threads 2 keys", f.fn_name), vec![], vec![vec![call(f, 1), call(f, 2)], vec![call(f, 2)], vec![call(f, 1)]], None, false);
                         push(format!("{}:same-key x3 then again", f.fn_name), vec![], vec![vec![call(f, 1), call(f, 1)], vec![call(f, 1)], vec![call(f, 1)]], None, false);
                     }
+                }
+            }
+            // bodies whose outcome differs between concurrent executions (Ok for one caller, Err for another): once a
+            // call that returned Ok has stored and returned, nobody runs the body again
+            for f in FUNCS.iter().filter(|f| f.family == "result" && f.flavour != Flavour::Thread && f.policy.is_none() && f.limit.is_none() && f.ttl.is_none() && f.mem.is_none() && !f.has_inval_on) {
+                push(format!("{}:same-key x2", f.fn_name), vec![], vec![vec![call(f, 1)], vec![call(f, 1)]], None, false);
+                push(format!("{}:same-key then again", f.fn_name), vec![], vec![vec![call(f, 1), call(f, 1)], vec![call(f, 1)]], None, false);
+                if thorough {
+                    push(format!("{}:same-key x3", f.fn_name), vec![], vec![vec![call(f, 1)], vec![call(f, 1)], vec![call(f, 1)]], None, false);
                 }
             }
         }
